@@ -37,12 +37,13 @@ TRUNC_CASE = ['nonneg']
 
 
 TRUNC = sp.Function('trunc')
+ROUND = sp.Function('roundhalfaway')
 
 
 def integer_valued(e):
     if e.is_Integer:
         return True
-    if e.func in (sp.floor, sp.ceiling) or e.func == TRUNC:
+    if e.func in (sp.floor, sp.ceiling) or e.func == TRUNC or e.func == ROUND:
         return True
     if e.is_Add or e.is_Mul:
         return all(integer_valued(a) for a in e.args)
@@ -85,6 +86,11 @@ def tosym(s, env):
         if op in ('ceil', 'Eigen::ceil', 'std::ceil') and len(s) == 2:
             a = tosym(s[1], env)
             return None if a is None else sp.ceiling(a)
+        if op in ('round', 'Eigen::round', 'std::round', 'std::lround', 'std::llround') and len(s) == 2:
+            a = tosym(s[1], env)
+            return None if a is None else ROUND(a)       # halves away from zero
+        if op in ('rint', 'Eigen::rint', 'std::rint', 'std::nearbyint') and len(s) == 2:
+            return None                                      # rounding-mode dependent: not interpreted
         if op in ('.cast',) and len(s) == 2:
             a = tosym(s[1], env)
             if a is None:
@@ -384,12 +390,14 @@ def check_class(fx, R, cq):
 
 
 WITNESS_GRIDS = [(-1, 1, '1/10'), (2, 5, 1), ('-122/100', '127/100', '1/10'), ('-331/100', '338/100', '1/4'), ('35/100', '205/100', '1/10'), ('-53/10', '-22/10', '1/2'),
-                 ('-105/100', '105/100', '1/10'), (0, 3, '1/2'), ('126/100', '44/10', '1/4'), ('-7/3', '11/7', '1/3'), ('1/10', '9/10', '1/5'), ('-9/10', '-1/10', '1/5')]
+                 ('-105/100', '105/100', '1/10'), (0, 3, '1/2'), ('126/100', '44/10', '1/4'), ('-7/3', '11/7', '1/3'), ('1/10', '9/10', '1/5'), ('-9/10', '-1/10', '1/5'),
+                 ('-7/2', '-3/2', 1), ('-7/4', '-3/4', '1/2'), ('3/2', '7/2', 1), ('-5/2', '5/2', 1), ('1/4', '3/4', '1/2')]
 
 
 def _num(e):
     """exact value of an expression of rationals with floor / ceiling / trunc"""
     e = e.replace(lambda x: isinstance(x, sp.core.function.AppliedUndef) and str(x.func) == 'trunc', lambda x: sp.sign(x.args[0]) * sp.floor(sp.Abs(x.args[0])))
+    e = e.replace(lambda x: isinstance(x, sp.core.function.AppliedUndef) and str(x.func) == 'roundhalfaway', lambda x: sp.sign(x.args[0]) * sp.floor(sp.Abs(x.args[0]) + sp.Rational(1, 2)))
     v = sp.nsimplify(e)
     return v if v.is_Rational else None
 
